@@ -45,7 +45,7 @@ func c20Worker(args []string) {
 	logPath := fs.String("log", "", "event log")
 	keysPath := fs.String("keys", "", "keys file")
 	mode := fs.String("mode", "insertion", "mode")
-	addrs := fs.String("addrs", "", "comma separated prover,metrics address pairs, one pair per instance")
+	nInst := fs.Int("n", 3, "number of successive instances")
 	seed := fs.Int64("seed", 1, "seed")
 	fs.Parse(args)
 	lf, err := os.OpenFile(*logPath, os.O_APPEND|os.O_CREATE|os.O_WRONLY, 0o644)
@@ -63,10 +63,12 @@ func c20Worker(args []string) {
 		os.Exit(3)
 	}
 	ks := &keyset{mode: *mode, d: int(ps.TreeDepth), b: int(ps.BatchSize), ps: ps, path: *keysPath}
-	al := strings.Split(*addrs, ",")
-	for inst := 0; inst+1 < len(al)+1 && 2*inst+1 < len(al); inst++ {
-		pAddr, mAddr := al[2*inst], al[2*inst+1]
-		emit(c20InstEvent{Instance: inst, Event: "begin"})
+	for inst := 0; inst < *nInst; inst++ {
+		// fresh addresses chosen right before the instance starts (server.Run panics when it cannot bind, and on a
+		// busy machine a port reserved long before may have been taken by another process)
+		ports := proc.FreePorts(2)
+		pAddr, mAddr := fmt.Sprintf("127.0.0.1:%d", ports[0]), fmt.Sprintf("127.0.0.1:%d", ports[1])
+		emit(c20InstEvent{Instance: inst, Event: "begin", Detail: pAddr + " " + mAddr})
 		r := gen.RNG(*seed, fmt.Sprint("C20/instances/", inst))
 		cfg := server.Config{ProverAddress: pAddr, MetricsAddress: mAddr, Mode: *mode}
 		job := server.Run(&cfg, ps)
@@ -195,24 +197,47 @@ func c20Instances(o *cli.Opts, run *evid.Run, mode string) {
 		}
 	}
 	n := o.Pick(3, 8)
-	ports := proc.FreePorts(2 * n)
-	var al []string
-	for _, p := range ports {
-		al = append(al, fmt.Sprintf("127.0.0.1:%d", p))
+	var werr error
+	var errPath string
+	begun, ended := -1, -1
+	for attempt := 0; attempt < 3; attempt++ {
+		logPath := filepath.Join(o.Scratch, fmt.Sprintf("c20-instances-%s-%d.log", mode, attempt))
+		errPath = logPath + ".stderr"
+		ef, _ := os.Create(errPath)
+		cmd := exec.Command(self, "c20worker", "-log", logPath, "-keys", ks.path, "-mode", mode, "-n", fmt.Sprint(n), "-seed", fmt.Sprint(o.Seed))
+		cmd.Stdout, cmd.Stderr = ef, ef
+		werr = cmd.Run()
+		ef.Close()
+		stderr, _ := os.ReadFile(errPath)
+		if werr != nil && strings.Contains(string(stderr), "address already in use") && attempt < 2 {
+			// another process took one of the two fresh ports between their selection and the bind: nothing was
+			// observed about the code under test; run the stage again
+			fmt.Fprintf(os.Stderr, "C20 instances (%s): a fresh port was taken by another process, retrying\n", mode)
+			continue
+		}
+		lf, err := os.Open(logPath)
+		if err != nil {
+			run.Inconclusive(key + ": worker wrote no log: " + fmt.Sprint(werr))
+			return
+		}
+		begun, ended = c20ReadInstances(run, lf, key, mode)
+		lf.Close()
+		break
 	}
-	logPath := filepath.Join(o.Scratch, "c20-instances-"+mode+".log")
-	errPath := logPath + ".stderr"
-	ef, _ := os.Create(errPath)
-	cmd := exec.Command(self, "c20worker", "-log", logPath, "-keys", ks.path, "-mode", mode, "-addrs", strings.Join(al, ","), "-seed", fmt.Sprint(o.Seed))
-	cmd.Stdout, cmd.Stderr = ef, ef
-	werr := cmd.Run()
-	ef.Close()
-	lf, err := os.Open(logPath)
-	if err != nil {
-		run.Inconclusive(key + ": worker wrote no log: " + fmt.Sprint(werr))
-		return
+	if begun != ended {
+		stderr, _ := os.ReadFile(errPath)
+		if strings.Contains(string(stderr), "address already in use") {
+			run.Inconclusive(fmt.Sprintf("%s: fresh ports were taken by other processes three times in a row", key))
+		} else if strings.Contains(string(stderr), "panic:") {
+			run.Violate(fmt.Sprintf("%s/%d/crash", key, begun), fmt.Sprintf("starting server instance %d in a process that already ran %d instance(s) crashed the process: %s", begun, begun, tailStr(string(stderr), 1500)), nil)
+		} else {
+			run.Inconclusive(fmt.Sprintf("%s: worker ended inside instance %d: %v: %s", key, begun, werr, tailStr(string(stderr), 400)))
+		}
 	}
-	defer lf.Close()
+}
+
+// c20ReadInstances interprets one worker log; returns the last instance begun and the last one ended.
+func c20ReadInstances(run *evid.Run, lf *os.File, key, mode string) (int, int) {
 	sc := bufio.NewScanner(lf)
 	sc.Buffer(make([]byte, 1<<20), 1<<24)
 	begun, ended := -1, -1
@@ -264,12 +289,5 @@ func c20Instances(o *cli.Opts, run *evid.Run, mode string) {
 			run.Case(mode+"/instance-in-used-process", true, ikey, ok, map[string]any{"instance": e.Instance, "sent": e.Sent, "metrics_delta": e.Delta, "gauge": e.Gauge})
 		}
 	}
-	if begun != ended {
-		stderr, _ := os.ReadFile(errPath)
-		if strings.Contains(string(stderr), "panic:") {
-			run.Violate(fmt.Sprintf("%s/%d/crash", key, begun), fmt.Sprintf("starting server instance %d in a process that already ran %d instance(s) crashed the process: %s", begun, begun, tailStr(string(stderr), 1500)), nil)
-		} else {
-			run.Inconclusive(fmt.Sprintf("%s: worker ended inside instance %d: %v: %s", key, begun, werr, tailStr(string(stderr), 400)))
-		}
-	}
+	return begun, ended
 }
